@@ -25,7 +25,7 @@ theorem roundtrip_scalar (s : Sc) (h : s.bt ≠ .f32) : roundtrip (.sc false s) 
 
 theorem roundtrip_nil : roundtrip .nil = .ok .nil := rfl
 
-/-- float32 comes back as the float64 of the same value (widened – value.go:293). -/
+/-- float32 comes back as the float64 of the same value (widened – value.go:293, and :345 for defined types). -/
 theorem roundtrip_float32 (x : FV) : roundtrip (.sc false (.f32 x)) = .ok (.sc false (.f64 x)) := rfl
 
 /-- Slices, maps, structs and pointers to structs of ANY element type, nesting depth and content come
@@ -144,8 +144,17 @@ def NoF32 : JS → Prop
   | .f32 _ => False
   | _ => True
 
-theorem toFloat_eq (E : Env) (g : GoVal) (j : JS) (h : toValue g = .ok j) (hf : NoF32 j) :
+/-- Set never stores a float32 payload: both arms of toValue widen -/
+theorem toValue_noF32 (g : GoVal) (j : JS) (h : toValue g = .ok j) : NoF32 j := by
+  cases toValue_stored g j h with
+  | undef a b => subst b; trivial
+  | direct s a b => subst b; cases s <;> trivial
+  | refl n s a b => subst b; cases s <;> trivial
+  | obj g' a b => subst a; trivial
+
+theorem toFloat_eq (E : Env) (g : GoVal) (j : JS) (h : toValue g = .ok j) :
     valFloat E j = Spec.toFloat E g := by
+  have hf := toValue_noF32 g j h
   cases toValue_stored g j h with
   | undef a b => subst b; simp [Spec.toFloat, a, valFloat, jsUndef, OttoVerif.C05.toFloat]
   | direct s a b => subst b; cases s <;> simp [Spec.toFloat, a, valFloat, directScalar, OttoVerif.C05.toFloat, Spec.scNumber]
@@ -186,12 +195,63 @@ theorem numberOfFloat_ofInt_small (i : Int) (h : i.natAbs < 2^53) : numberOfFloa
 
 
 
-/-- Go's static types bound integer payloads; the kinds whose ToInteger goes through float64
-    (int32, uint, uint64) are covered where float64 is exact (|i| < 2^53). -/
+theorem divRNE_bounds (a b : Nat) : a / b ≤ divRNE a b ∧ divRNE a b ≤ a / b + 1 := by
+  unfold divRNE
+  dsimp only
+  split
+  · omega
+  · split
+    · omega
+    · split <;> omega
+
+theorem roundPos_big (n : Nat) (h1 : 2^63 ≤ n) (h2 : n < 2^64) :
+    ∃ m e, roundPos n 1 = some (m, e) ∧ 0 < m ∧ (2:Int)^63 ≤ ((truncAbs m e : Nat) : Int) := by
+  have hn : n ≠ 0 := by omega
+  have hl : Nat.log2 n = 63 := (Nat.log2_eq_iff hn).mpr ⟨h1, h2⟩
+  have hl1 : Nat.log2 1 = 0 := by decide
+  have hlt : ¬ (n < 9223372036854775808) := by omega
+  have e1 : ((63 : Nat) : Int) - ((0 : Nat) : Int) - 52 = 11 := by decide
+  have hb := divRNE_bounds n 2048
+  unfold roundPos
+  simp only [hl, hl1, e1]
+  simp [hlt]
+  generalize divRNE n 2048 = d at hb ⊢
+  by_cases hd2 : d = 9007199254740992
+  · refine ⟨4503599627370496, 12, ?_, by decide, ?_⟩
+    · simp [hd2]
+    · simp [truncAbs]
+  · refine ⟨d, 11, ?_, by omega, ?_⟩
+    · simp [hd2]
+    · simp [truncAbs]; omega
+
+/-- a uint64 at or above 2^63 converts to a float64 at or above 2^63 -/
+theorem numberOfFloat_ofInt_big (i : Int) (h1 : 2^63 ≤ i) (h2 : i < 2^64) : numberOfFloat (ofInt i) = int64Max := by
+  have hna : i.natAbs = i.toNat := by omega
+  have hn1 : 2^63 ≤ i.toNat := by omega
+  have hn2 : i.toNat < 2^64 := by omega
+  obtain ⟨m, e, hr, hm, ht⟩ := roundPos_big i.toNat hn1 hn2
+  have h53 : ¬ (i.natAbs < 2^53) := by omega
+  have hneg : ¬ (i < 0) := by omega
+  have hnz : i.toNat ≠ 0 := by omega
+  unfold ofInt
+  rw [if_neg h53, if_neg hneg]
+  unfold ofRatParts
+  rw [hna, if_neg hnz, hr]
+  show numberOfFloat (.fin false m e) = int64Max
+  cases m with
+  | zero => omega
+  | succ k =>
+    have ht' : truncInt (.fin false (k+1) e) ≥ 2^63 := by simpa [truncInt] using ht
+    simp only [numberOfFloat, isZero]
+    simp
+    intro hlt
+    omega
+
+
+/-- Go's static types bound integer payloads (64-bit `int`/`uint`). -/
 def IntOK : Sc → Prop
-  | .int .i32 i => i.natAbs < 2^53
-  | .int .uint i => i.natAbs < 2^53
-  | .int .u64 i => i.natAbs < 2^53
+  | .int .uint i => 0 ≤ i ∧ i < 2^64
+  | .int .u64 i => 0 ≤ i ∧ i < 2^64
   | .int _ i => -(2^63 : Int) ≤ i ∧ i < 2^63
   | _ => True
 
@@ -204,27 +264,38 @@ theorem clamp_id (i : Int) (h : -(2^63 : Int) ≤ i ∧ i < 2^63) : Spec.clamp i
   unfold Spec.clamp int64Max int64Min
   rw [if_neg (by omega), if_neg (by omega)]
 
+theorem clamp_big (i : Int) (h : 2^63 ≤ i) : Spec.clamp i = int64Max := by
+  unfold Spec.clamp int64Max
+  rw [if_pos (by omega)]
+
+theorem valInteger_unsigned (E : Env) (k : NK) (i : Int) (hk : k = .uint ∨ k = .u64) (hi : 0 ≤ i ∧ i < 2^64) :
+    valInteger E (.prim (.int k i)) = .ok (Spec.clamp i) := by
+  by_cases hle : i ≤ int64Max
+  · have : Spec.clamp i = i := clamp_id i ⟨by omega, by unfold int64Max at hle; omega⟩
+    rcases hk with rfl | rfl <;> simp [valInteger, hle, this]
+  · have hb : 2^63 ≤ i := by unfold int64Max at hle; omega
+    rcases hk with rfl | rfl <;>
+      simp [valInteger, hle, OttoVerif.C05.toFloat, numberOfFloat_ofInt_big i hb hi.2, clamp_big i hb]
+
 theorem valInteger_scalar (E : Env) (s : Sc) (hi : IntOK s) (j : JS)
-    (hj : j = directScalar s ∨ (j = reflectScalar s ∧ NoF32 j)) :
+    (hj : j = directScalar s ∨ j = reflectScalar s) :
     valInteger E j = .ok (match s with | .int _ i => Spec.clamp i | s => Spec.toIntegerOfNumber (Spec.scNumber E s)) := by
   cases s with
-  | bool b => rcases hj with rfl | ⟨rfl, _⟩ <;> simp [directScalar, reflectScalar, valInteger, OttoVerif.C05.toFloat, Spec.scNumber, numberOfFloat_eq]
-  | f64 x => rcases hj with rfl | ⟨rfl, _⟩ <;> simp [directScalar, reflectScalar, valInteger, OttoVerif.C05.toFloat, Spec.scNumber, numberOfFloat_eq]
-  | f32 x =>
-    rcases hj with rfl | ⟨rfl, h⟩
-    · simp [directScalar, valInteger, OttoVerif.C05.toFloat, Spec.scNumber, numberOfFloat_eq]
-    · simp [reflectScalar, NoF32] at h
-  | str b => rcases hj with rfl | ⟨rfl, _⟩ <;> simp [directScalar, reflectScalar, valInteger, OttoVerif.C05.toFloat, Spec.scNumber, numberOfFloat_eq]
+  | bool b => rcases hj with rfl | rfl <;> simp [directScalar, reflectScalar, valInteger, OttoVerif.C05.toFloat, Spec.scNumber, numberOfFloat_eq]
+  | f64 x => rcases hj with rfl | rfl <;> simp [directScalar, reflectScalar, valInteger, OttoVerif.C05.toFloat, Spec.scNumber, numberOfFloat_eq]
+  | f32 x => rcases hj with rfl | rfl <;> simp [directScalar, reflectScalar, valInteger, OttoVerif.C05.toFloat, Spec.scNumber, numberOfFloat_eq]
+  | str b => rcases hj with rfl | rfl <;> simp [directScalar, reflectScalar, valInteger, OttoVerif.C05.toFloat, Spec.scNumber, numberOfFloat_eq]
   | int k i =>
-    have hj' : j = .prim (.int k i) := by rcases hj with rfl | ⟨rfl, _⟩ <;> rfl
+    have hj' : j = .prim (.int k i) := by rcases hj with rfl | rfl <;> rfl
     subst hj'
-    cases k <;> simp only [valInteger, IntOK] at hi ⊢ <;>
+    cases k <;> simp only [IntOK] at hi <;>
       first
-        | (rw [clamp_id i hi])
-        | (simp only [OttoVerif.C05.toFloat]; rw [numberOfFloat_ofInt_small i hi])
+        | exact valInteger_unsigned E _ i (by simp) hi
+        | (simp only [valInteger]; rw [clamp_id i hi])
 
-/-- ToInteger: the integer the Go value denotes, clamped to int64 (float payloads: ES5 §9.4). -/
-theorem toInteger_partial (E : Env) (g : GoVal) (j : JS) (h : toValue g = .ok j) (hf : NoF32 j)
+/-- ToInteger: the integer the Go value denotes, clamped to int64 (float payloads: ES5 §9.4) –
+    for every integer kind and width, every float, bool, string, nil and pointer chain. -/
+theorem toInteger_eq (E : Env) (g : GoVal) (j : JS) (h : toValue g = .ok j)
     (hi : TargetIntOK g) : valInteger E j = Spec.toInteger E g := by
   cases toValue_stored g j h with
   | undef a b => subst b; simp [Spec.toInteger, a, valInteger, jsUndef, OttoVerif.C05.toFloat, numberOfFloat, isZero]
@@ -234,14 +305,14 @@ theorem toInteger_partial (E : Env) (g : GoVal) (j : JS) (h : toValue g = .ok j)
     cases s <;> simp [Spec.toInteger, a]
   | refl n s a b =>
     simp only [TargetIntOK, a] at hi
-    rw [valInteger_scalar E s hi j (.inr ⟨b, hf⟩)]
+    rw [valInteger_scalar E s hi j (.inr b)]
     cases s <;> simp [Spec.toInteger, a]
   | obj g' a b =>
     subst a
     cases ht : Spec.target g <;> simp [ht, isObjG] at b <;> simp [Spec.toInteger, ht, valInteger]
 
-/-- ToBoolean: ES5 §9.2 of the counterpart, unless the payload is a float32 NaN. -/
-theorem toBoolean_eq (g : GoVal) (j : JS) (h : toValue g = .ok j) (hn : j ≠ .f32 .nan) :
+/-- ToBoolean: ES5 §9.2 of the counterpart. -/
+theorem toBoolean_eq (g : GoVal) (j : JS) (h : toValue g = .ok j) :
     valBool j = Spec.toBoolean g := by
   cases toValue_stored g j h with
   | undef a b => subst b; simp [Spec.toBoolean, a, valBool, jsUndef, OttoVerif.C05.toBool]
@@ -254,16 +325,10 @@ theorem toBoolean_eq (g : GoVal) (j : JS) (h : toValue g = .ok j) (hn : j ≠ .f
     subst b
     cases s with
     | str b => cases b <;> simp [Spec.toBoolean, a, valBool, reflectScalar, OttoVerif.C05.toBool]
-    | f32 x =>
-      cases x with
-      | nan => exact absurd rfl hn
-      | _ => simp [Spec.toBoolean, a, valBool, reflectScalar, isNaN]
     | _ => simp [Spec.toBoolean, a, valBool, reflectScalar, OttoVerif.C05.toBool, bne, BEq.beq]
   | obj g' a b =>
     subst a
     cases ht : Spec.target g <;> simp [ht, isObjG] at b <;> simp [Spec.toBoolean, ht, valBool]
-
-
 
 theorem numToString_f64 (x : FV) : valString (.prim (.f64 x)) = .ok (Spec.numToString x) := by
   cases x with
@@ -276,7 +341,7 @@ theorem numToString_f64 (x : FV) : valString (.prim (.f64 x)) = .ok (Spec.numToS
 
 /-- ToString: ES5 §9.8 of the counterpart (integers: exact decimal digits); `none` marks the finite
     non-whole doubles whose digit string is C06's subject — on both sides alike. -/
-theorem toString_eq (g : GoVal) (j : JS) (h : toValue g = .ok j) (hf : NoF32 j) :
+theorem toString_eq (g : GoVal) (j : JS) (h : toValue g = .ok j) :
     valString j = Spec.toStringG g := by
   cases toValue_stored g j h with
   | undef a b => subst b; simp [Spec.toStringG, a, valString, jsUndef]
@@ -289,80 +354,46 @@ theorem toString_eq (g : GoVal) (j : JS) (h : toValue g = .ok j) (hf : NoF32 j) 
   | refl n s a b =>
     subst b
     cases s with
-    | f32 x => simp [reflectScalar, NoF32] at hf
+    | f32 x => simp only [reflectScalar, numToString_f64, Spec.toStringG, a]
     | f64 x => simp only [reflectScalar, numToString_f64, Spec.toStringG, a]
     | _ => simp [Spec.toStringG, a, valString, reflectScalar]
   | obj g' a b =>
     subst a
     cases ht : Spec.target g <;> simp [ht, isObjG] at b <;> simp [Spec.toStringG, ht, valString]
 
-/-- with a float32 payload, whatever string the model determines is the spec's string -/
-theorem toString_f32 (x : FV) (s : List Nat) (h : valString (.f32 x) = .ok (some s)) :
-    Spec.numToString x = some s := by
+theorem marshalNum_eq (x : FV) : valMarshal (.prim (.f64 x)) = .ok (Spec.marshalNum x) := by
   cases x with
-  | nan => simpa [valString, Spec.numToString, isZero] using h
-  | inf b => simpa [valString, Spec.numToString, isZero] using h
-  | fin b m e =>
-    cases m with
-    | zero => simpa [valString, Spec.numToString, isZero] using h
-    | succ k =>
-      simp only [valString, isZero, Bool.false_eq_true, if_false] at h
-      split at h
-      · rename_i hw
-        have hw' : smallWhole (.fin b (k+1) e) = true := by
-          simp only [smallWhole32, smallWhole, Bool.and_eq_true, decide_eq_true_eq] at hw ⊢
-          exact ⟨hw.1, by omega⟩
-        simp only [Res.ok.injEq] at h
-        simp [Spec.numToString, hw', h]
-      · simp at h
-
-/-- finite, and not a negative zero -/
-def MarshalOK : Sc → Prop
-  | .f32 x => (isNaN x || isInf x) = false ∧ (isZero x && signBit x) = false
-  | .f64 x => (isNaN x || isInf x) = false ∧ (isZero x && signBit x) = false
-  | _ => True
-
-def TargetMarshalOK (g : GoVal) : Prop :=
-  match Spec.target g with
-  | .sc _ s => MarshalOK s
-  | _ => True
-
-theorem marshalNum_ok (x : FV) (h : (isNaN x || isInf x) = false ∧ (isZero x && signBit x) = false) :
-    (match x with | .fin .. => Res.ok (JTok.num x) | _ => .err) = .ok (Spec.marshalNum x) := by
-  cases x with
-  | nan => simp [isNaN] at h
-  | inf s => simp [isNaN, isInf] at h
+  | nan => rfl
+  | inf s => rfl
   | fin s m e =>
     cases m with
-    | zero => cases s <;> simp [isZero, signBit, isNaN, isInf] at h ⊢ <;> simp [Spec.marshalNum]
-    | succ k => simp [Spec.marshalNum]
+    | zero => simp [valMarshal, Spec.marshalNum]
+    | succ k => simp [valMarshal, Spec.marshalNum]
 
-/-- MarshalJSON of a primitive = JSON.stringify of the counterpart (§15.12.3), integers exact,
-    outside the non-finite and negative-zero regions. -/
-theorem marshal_eq (g : GoVal) (j : JS) (h : toValue g = .ok j) (hm : TargetMarshalOK g) :
+/-- MarshalJSON of a primitive = JSON.stringify of the counterpart (§15.12.3), integers exact:
+    NaN and ±Infinity are null, −0 is 0. -/
+theorem marshal_eq (g : GoVal) (j : JS) (h : toValue g = .ok j) :
     valMarshal j = Spec.marshal g := by
   cases toValue_stored g j h with
   | undef a b => subst b; simp [Spec.marshal, a, valMarshal, jsUndef]
   | direct s a b =>
     subst b
-    simp only [TargetMarshalOK, a] at hm
     cases s with
-    | f32 x => simp only [directScalar, valMarshal, Spec.marshal, a]; exact marshalNum_ok x hm
-    | f64 x => simp only [directScalar, valMarshal, Spec.marshal, a]; exact marshalNum_ok x hm
+    | f32 x => simp only [directScalar, marshalNum_eq, Spec.marshal, a]
+    | f64 x => simp only [directScalar, marshalNum_eq, Spec.marshal, a]
     | _ => simp [Spec.marshal, a, valMarshal, directScalar]
   | refl n s a b =>
     subst b
-    simp only [TargetMarshalOK, a] at hm
     cases s with
-    | f32 x => simp only [reflectScalar, valMarshal, Spec.marshal, a]; exact marshalNum_ok x hm
-    | f64 x => simp only [reflectScalar, valMarshal, Spec.marshal, a]; exact marshalNum_ok x hm
+    | f32 x => simp only [reflectScalar, marshalNum_eq, Spec.marshal, a]
+    | f64 x => simp only [reflectScalar, marshalNum_eq, Spec.marshal, a]
     | _ => simp [Spec.marshal, a, valMarshal, reflectScalar]
   | obj g' a b =>
     subst a
     cases ht : Spec.target g <;> simp [ht, isObjG] at b <;> simp [Spec.marshal, ht, valMarshal]
 
 /-- what a script sees (typeof, and the primitive value) is the natural counterpart -/
-theorem view_eq (E : Env) (g : GoVal) (j : JS) (h : toValue g = .ok j) (hf : NoF32 j) :
+theorem view_eq (E : Env) (g : GoVal) (j : JS) (h : toValue g = .ok j) :
     viewJS E j = Spec.view E g ∧ Res.ok (typeofJS j) = Spec.typeofG g := by
   cases toValue_stored g j h with
   | undef a b => subst b; simp [Spec.view, Spec.typeofG, a, viewJS, typeofJS, jsUndef]
@@ -371,7 +402,7 @@ theorem view_eq (E : Env) (g : GoVal) (j : JS) (h : toValue g = .ok j) (hf : NoF
     cases s <;> simp [Spec.view, Spec.typeofG, a, viewJS, typeofJS, directScalar, Spec.scNumber, OttoVerif.C05.toFloat]
   | refl n s a b =>
     subst b
-    cases s <;> simp [Spec.view, Spec.typeofG, a, viewJS, typeofJS, reflectScalar, Spec.scNumber, OttoVerif.C05.toFloat, NoF32] at hf ⊢
+    cases s <;> simp [Spec.view, Spec.typeofG, a, viewJS, typeofJS, reflectScalar, Spec.scNumber, OttoVerif.C05.toFloat]
   | obj g' a b =>
     subst a
     cases ht : Spec.target g <;> simp [ht, isObjG] at b <;> simp [Spec.view, Spec.typeofG, ht, viewJS, typeofJS]
@@ -512,8 +543,6 @@ theorem export_structural_props (E : Env) : (ps : JSProps) → holeProps ps = fa
       | err => rw [hv] at h; cases h
 end
 
-
-
 def typesOf : GoVals → List (Option GT)
   | .nil => []
   | .cons g r => typeOf g :: typesOf r
@@ -526,238 +555,159 @@ theorem allAssignable_eq (t : GT) : (gs : GoVals) → allAssignable t gs = (type
   | .nil => rfl
   | .cons g r => by simp only [allAssignable, typesOf, List.all_cons]; rw [allAssignable_eq t r]
 
-/-- the Array typing rule: the slice built has element type `arrElemType` of the element types -/
-theorem finishArr_type (gs : GoVals) (g : GoVal) (h : finishArr gs = .ok g) :
-    typeOf g = some (.slice (arrElemType (typesOf gs))) := by
-  unfold finishArr at h
-  unfold arrElemType
-  rw [scan_eq] at h
-  dsimp only at h ⊢
-  split at h
-  · rename_i ht; rw [ht]; cases h; rfl
-  · rename_i t ht
-    rw [ht]
-    dsimp only
-    split at h
-    · rename_i hc; rw [if_pos hc]; cases h; rfl
-    · rename_i hc
-      rw [if_neg hc]
-      split at h
-      · cases h; rfl
-      · cases h
+/-- once the loop has seen two different element types it stays in state 2 -/
+theorem scanT_state2 : (ts : List (Option GT)) → (st : St) → st.state ≠ 0 → st.state ≠ 1 →
+    (scanT st ts).state = st.state
+  | [], st, _, _ => rfl
+  | t :: r, st, h0, h1 => by
+    simp only [scanT]
+    have hs : (stepT st t).state = st.state := by simp [stepT, h0, h1]
+    rw [scanT_state2 r (stepT st t) (by rw [hs]; exact h0) (by rw [hs]; exact h1), hs]
 
-theorem finishArr_panic (gs : GoVals) : finishArr gs = .panic ↔ arrClash (typesOf gs) = true := by
-  unfold finishArr arrClash
+/-- the loop invariant of the common-type inference: while in state 1 every element seen has the type of
+    the first one, and `t` (the last type) is that type -/
+theorem scanT_inv : (ts : List (Option GT)) → (st : St) → st.state = 1 → st.t = st.first →
+    (scanT st ts).state = 1 → (scanT st ts).t = st.first ∧ ∀ x ∈ ts, x = st.first
+  | [], st, _, ht, _ => ⟨ht, fun _ hx => by cases hx⟩
+  | t :: r, st, h1, ht, hfin => by
+    simp only [scanT] at hfin ⊢
+    by_cases hc : st.sig ≠ sigOf t ∨ t ≠ st.first
+    · -- the step moves to state 2, which is final: contradiction with hfin
+      have hs : (stepT st t).state = 2 := by simp [stepT, h1, hc]
+      have := scanT_state2 r (stepT st t) (by rw [hs]; decide) (by rw [hs]; decide)
+      rw [this, hs] at hfin
+      cases hfin
+    · have hte : t = st.first := by
+        by_cases h : t = st.first
+        · exact h
+        · exact absurd (Or.inr h) hc
+      have hstep : stepT st t = ⟨1, st.sig, t, st.first⟩ := by simp [stepT, h1, hc]
+      rw [hstep] at hfin ⊢
+      have ih := scanT_inv r ⟨1, st.sig, t, st.first⟩ rfl hte hfin
+      exact ⟨ih.1, fun x hx => by
+        rcases List.mem_cons.mp hx with rfl | hx'
+        · exact hte
+        · exact ih.2 x hx'⟩
+
+/-- from the initial state: in state 1 at the end, all element types equal the last type `t` -/
+theorem scanT_init_inv (ts : List (Option GT)) (h : (scanT St.init ts).state = 1) :
+    ∀ x ∈ ts, x = (scanT St.init ts).t := by
+  cases ts with
+  | nil => intro x hx; cases hx
+  | cons t r =>
+    have hstep : stepT St.init t = ⟨1, sigOf t, t, t⟩ := by simp [stepT, St.init]
+    simp only [scanT, hstep] at h ⊢
+    have ih := scanT_inv r ⟨1, sigOf t, t, t⟩ rfl rfl h
+    intro x hx
+    rw [ih.1]
+    rcases List.mem_cons.mp hx with rfl | hx'
+    · rfl
+    · exact ih.2 x hx'
+
+/-- the Array typing rule, unconditionally: `export` of an Array builds the slice whose element type is
+    `arrElemType` of the element types – the reflect.Set copy can never panic, because state 1 means that
+    all elements have one and the same type. -/
+theorem finishArr_val (gs : GoVals) : finishArr gs = .ok (.slice (arrElemType (typesOf gs)) false gs) := by
+  unfold finishArr arrElemType
   rw [scan_eq]
   dsimp only
-  generalize scanT St.init (typesOf gs) = st
-  obtain ⟨state, sig, t⟩ := st
+  have hinv := scanT_init_inv (typesOf gs)
+  generalize scanT St.init (typesOf gs) = st at hinv
+  obtain ⟨state, sig, t, first⟩ := st
   cases t with
-  | none => simp
+  | none => rfl
   | some t =>
-    dsimp only
-    rw [allAssignable_eq]
+    dsimp only at hinv ⊢
     by_cases hc : state ≠ 1 ∨ sig.k = 20
     · simp [hc]
-    · simp only [hc, if_false, decide_false, Bool.not_false, Bool.true_and]
-      cases hall : (typesOf gs).all (· == some t) <;> simp
-
-theorem finishArr_total (gs : GoVals) : finishArr gs ≠ .typeError ∧ finishArr gs ≠ .err := by
-  unfold finishArr
-  dsimp only
-  split
-  · simp
-  · split
-    · simp
-    · split <;> simp
-
-/-- neither a TypeError nor a plain error: `export` either returns or panics -/
-def Good {α} (r : Res α) : Prop := r ≠ .typeError ∧ r ≠ .err
+    · have hs : state = 1 := by
+        by_cases h : state = 1
+        · exact h
+        · exact absurd (Or.inl h) hc
+      have hall : (typesOf gs).all (· == some t) = true := by
+        simp only [List.all_eq_true, beq_iff_eq]
+        exact fun x hx => hinv hs x hx
+      rw [if_neg hc, if_neg hc, allAssignable_eq, hall]
+      rfl
 
 mutual
-/-- `export` characterised: (1) the dynamic type of the result is `expType` (the Array typing rule, exactly);
-    (2) it panics iff some Array inside has elements of equal Kind signature but different types (`clash`);
-    (3) it never fails in any other way. -/
-theorem export_char : (j : JS) →
-    (∀ g, exportV j = .ok g → typeOf g = expType j) ∧ (exportV j = .panic ↔ clash j = true) ∧ Good (exportV j)
-  | .prim v => by
-    cases v <;> simp [exportV, expType, clash, Good, typeOf, Sc.bt]
-  | .f32 x => by simp [exportV, expType, clash, Good, typeOf, Sc.bt]
-  | .goObj g' => by simp [exportV, expType, clash, Good]
+/-- `export` is total and typed: it always returns (no panic, no error) and the dynamic type of the result
+    is `expType j` – the Array typing rule, characterised exactly. -/
+theorem export_ok : (j : JS) → ∃ g, exportV j = .ok g ∧ typeOf g = expType j
+  | .prim v => by cases v <;> exact ⟨_, rfl, rfl⟩
+  | .f32 x => ⟨_, rfl, rfl⟩
+  | .goObj g' => ⟨g', rfl, rfl⟩
   | .arr es => by
-    have ih := export_char_elems es
-    simp only [exportV, expType, clash]
-    cases hR : exportElems es with
-    | ok gs =>
-      have hc : clashElems es = false := by
-        cases hce : clashElems es with
-        | false => rfl
-        | true => have := ih.2.1.mpr hce; rw [hR] at this; cases this
-      have ht := ih.1 gs hR
-      simp only [Res.bind, hc, Bool.false_or]
-      refine ⟨fun g hg => ?_, ?_, finishArr_total gs⟩
-      · rw [finishArr_type gs g hg, ht]
-      · rw [finishArr_panic, ht]
-    | panic =>
-      have hc : clashElems es = true := ih.2.1.mp hR
-      simp [Res.bind, hc, Good]
-    | typeError => exact absurd hR ih.2.2.1
-    | err => exact absurd hR ih.2.2.2
+    obtain ⟨gs, he, ht⟩ := export_ok_elems es
+    refine ⟨.slice (arrElemType (typesOf gs)) false gs, ?_, ?_⟩
+    · simp only [exportV, he, Res.bind, finishArr_val]
+    · simp only [typeOf, expType, ht]
   | .obj ps => by
-    have ih := export_char_props ps
-    simp only [exportV, expType, clash]
-    cases hR : exportProps ps with
-    | ok kvs =>
-      have hc : clashProps ps = false := by
-        cases hce : clashProps ps with
-        | false => rfl
-        | true => have := ih.1.mpr hce; rw [hR] at this; cases this
-      simp [Res.map, hc, Good, typeOf]
-    | panic =>
-      have hc : clashProps ps = true := ih.1.mp hR
-      simp [Res.map, hc, Good]
-    | typeError => exact absurd hR ih.2.1
-    | err => exact absurd hR ih.2.2
-theorem export_char_elems : (es : JSElems) →
-    (∀ gs, exportElems es = .ok gs → typesOf gs = expTypes es) ∧ (exportElems es = .panic ↔ clashElems es = true) ∧
-      Good (exportElems es)
-  | .nil => by simp [exportElems, expTypes, clashElems, Good, typesOf]
+    obtain ⟨kvs, he⟩ := export_ok_props ps
+    exact ⟨.map .iface false kvs, by simp only [exportV, he, Res.map], rfl⟩
+theorem export_ok_elems : (es : JSElems) → ∃ gs, exportElems es = .ok gs ∧ typesOf gs = expTypes es
+  | .nil => ⟨.nil, rfl, rfl⟩
   | .hole r => by
-    have ih := export_char_elems r
-    simpa [exportElems, expTypes, clashElems] using ih
+    obtain ⟨gs, he, ht⟩ := export_ok_elems r
+    exact ⟨gs, by simp only [exportElems, he], by simp only [expTypes, ht]⟩
   | .cons v r => by
-    have ihv := export_char v
-    have ihr := export_char_elems r
-    simp only [exportElems, expTypes, clashElems]
-    cases hv : exportV v with
-    | ok g =>
-      have hcv : clash v = false := by
-        cases hce : clash v with
-        | false => rfl
-        | true => have := ihv.2.1.mpr hce; rw [hv] at this; cases this
-      cases hr : exportElems r with
-      | ok gs' =>
-        have hcr : clashElems r = false := by
-          cases hce : clashElems r with
-          | false => rfl
-          | true => have := ihr.2.1.mpr hce; rw [hr] at this; cases this
-        simp only [Res.bind, Res.map, hcv, hcr, Good]
-        refine ⟨fun gs hgs => ?_, by simp, by simp⟩
-        cases hgs
-        simp only [typesOf]
-        rw [ihv.1 g hv, ihr.1 gs' hr]
-      | panic =>
-        have hcr : clashElems r = true := ihr.2.1.mp hr
-        simp [Res.bind, Res.map, hcr, Good]
-      | typeError => exact absurd hr ihr.2.2.1
-      | err => exact absurd hr ihr.2.2.2
-    | panic =>
-      have hcv : clash v = true := ihv.2.1.mp hv
-      simp [Res.bind, hcv, Good]
-    | typeError => exact absurd hv ihv.2.2.1
-    | err => exact absurd hv ihv.2.2.2
-theorem export_char_props : (ps : JSProps) →
-    (exportProps ps = .panic ↔ clashProps ps = true) ∧ Good (exportProps ps)
-  | .nil => by simp [exportProps, clashProps, Good]
+    obtain ⟨g, hv, hvt⟩ := export_ok v
+    obtain ⟨gs, he, ht⟩ := export_ok_elems r
+    exact ⟨.cons g gs, by simp only [exportElems, hv, he, Res.bind, Res.map], by simp only [typesOf, expTypes, ht, hvt]⟩
+theorem export_ok_props : (ps : JSProps) → ∃ kvs, exportProps ps = .ok kvs
+  | .nil => ⟨.nil, rfl⟩
   | .cons k v r => by
-    have ihv := export_char v
-    have ihr := export_char_props r
-    simp only [exportProps, clashProps]
+    obtain ⟨g, hv, _⟩ := export_ok v
+    obtain ⟨kvs, he⟩ := export_ok_props r
     by_cases hu : isUndef v = true
-    · simpa [hu] using ihr
-    · simp only [hu, if_false, Bool.false_eq_true, Bool.not_false, Bool.true_and]
-      cases hv : exportV v with
-      | ok g =>
-        have hcv : clash v = false := by
-          cases hce : clash v with
-          | false => rfl
-          | true => have := ihv.2.1.mpr hce; rw [hv] at this; cases this
-        cases hr : exportProps r with
-        | ok kvs' =>
-          have hcr : clashProps r = false := by
-            cases hce : clashProps r with
-            | false => rfl
-            | true => have := ihr.1.mpr hce; rw [hr] at this; cases this
-          simp [Res.bind, Res.map, hcv, hcr, Good]
-        | panic =>
-          have hcr : clashProps r = true := ihr.1.mp hr
-          simp [Res.bind, Res.map, hcr, Good]
-        | typeError => exact absurd hr ihr.2.1
-        | err => exact absurd hr ihr.2.2
-      | panic =>
-        have hcv : clash v = true := ihv.2.1.mp hv
-        simp [Res.bind, hcv, Good]
-      | typeError => exact absurd hv ihv.2.2.1
-      | err => exact absurd hv ihv.2.2.2
+    · exact ⟨kvs, by simp only [exportProps, hu, if_true, he]⟩
+    · exact ⟨.cons k g kvs, by simp only [exportProps, hu, if_false, Bool.false_eq_true, hv, he, Res.bind, Res.map]⟩
 end
 
-/-- the three parts of `export_char`, separately -/
-theorem export_typing (j : JS) (g : GoVal) (h : exportV j = .ok g) : typeOf g = expType j := (export_char j).1 g h
-theorem export_panic_iff_clash (j : JS) : exportV j = .panic ↔ clash j = true := (export_char j).2.1
-theorem export_total (j : JS) : (∃ g, exportV j = .ok g) ∨ exportV j = .panic := by
-  have h := (export_char j).2.2
-  cases hr : exportV j with
-  | ok g => exact .inl ⟨g, rfl⟩
-  | panic => exact .inr rfl
-  | typeError => exact absurd hr h.1
-  | err => exact absurd hr h.2
+theorem export_total (j : JS) : ∃ g, exportV j = .ok g := by
+  obtain ⟨g, h, _⟩ := export_ok j; exact ⟨g, h⟩
 
-
-
-theorem finishArr_val (gs : GoVals) (h : arrClash (typesOf gs) = false) :
-    finishArr gs = .ok (.slice (arrElemType (typesOf gs)) false gs) := by
-  cases hf : finishArr gs with
-  | ok g =>
-    obtain ⟨t, rfl⟩ := finishArr_ok gs g hf
-    have := finishArr_type gs _ hf
-    simp only [typeOf, Option.some.injEq, GT.slice.injEq] at this
-    rw [this]
-  | panic => rw [(finishArr_panic gs).mp hf] at h; cases h
-  | typeError => exact absurd hf (finishArr_total gs).1
-  | err => exact absurd hf (finishArr_total gs).2
+theorem export_typing (j : JS) (g : GoVal) (h : exportV j = .ok g) : typeOf g = expType j := by
+  obtain ⟨g', h', ht⟩ := export_ok j
+  rw [h] at h'; cases h'; exact ht
 
 mutual
-/-- Outside the three JavaScript->Go regions (hole, typed Array, type clash) `export` returns exactly the
-    documented shape: []interface{} for Arrays, map[string]interface{} for Objects, at every depth. -/
-theorem export_doc : (j : JS) → hasHole j = false → typedArr j = false → clash j = false →
-    exportV j = .ok (Spec.docOf j)
-  | .prim v, _, _, _ => by cases v <;> rfl
-  | .f32 x, _, _, _ => rfl
-  | .goObj g, _, _, _ => rfl
-  | .arr es, hh, ht, hc => by
+/-- Outside the two JavaScript->Go regions (hole, typed Array) `export` returns exactly the documented
+    shape: []interface{} for Arrays, map[string]interface{} for Objects, at every depth. -/
+theorem export_doc : (j : JS) → hasHole j = false → typedArr j = false → exportV j = .ok (Spec.docOf j)
+  | .prim v, _, _ => by cases v <;> rfl
+  | .f32 x, _, _ => rfl
+  | .goObj g, _, _ => rfl
+  | .arr es, hh, ht => by
     simp only [hasHole] at hh
     simp only [typedArr, Bool.or_eq_false_iff, bne_eq_false_iff_eq] at ht
-    simp only [clash, Bool.or_eq_false_iff] at hc
-    have he := export_doc_elems es hh ht.1 hc.1
-    have hts := (export_char_elems es).1 _ he
-    simp only [exportV, he, Res.bind, Spec.docOf]
-    rw [finishArr_val _ (by rw [hts]; exact hc.2), hts, ht.2]
-  | .obj ps, hh, ht, hc => by
+    have he := export_doc_elems es hh ht.1
+    obtain ⟨gs, he', hts⟩ := export_ok_elems es
+    rw [he] at he'; cases he'
+    simp only [exportV, he, Res.bind, Spec.docOf, finishArr_val, hts, ht.2]
+  | .obj ps, hh, ht => by
     simp only [hasHole] at hh
     simp only [typedArr] at ht
-    simp only [clash] at hc
-    simp only [exportV, export_doc_props ps hh ht hc, Res.map, Spec.docOf]
-theorem export_doc_elems : (es : JSElems) → holeElems es = false → typedElems es = false → clashElems es = false →
+    simp only [exportV, export_doc_props ps hh ht, Res.map, Spec.docOf]
+theorem export_doc_elems : (es : JSElems) → holeElems es = false → typedElems es = false →
     exportElems es = .ok (Spec.docOfElems es)
-  | .nil, _, _, _ => rfl
-  | .hole r, hh, _, _ => by simp [holeElems] at hh
-  | .cons v r, hh, ht, hc => by
+  | .nil, _, _ => rfl
+  | .hole r, hh, _ => by simp [holeElems] at hh
+  | .cons v r, hh, ht => by
     simp only [holeElems, Bool.or_eq_false_iff] at hh
     simp only [typedElems, Bool.or_eq_false_iff] at ht
-    simp only [clashElems, Bool.or_eq_false_iff] at hc
-    simp only [exportElems, export_doc v hh.1 ht.1 hc.1, export_doc_elems r hh.2 ht.2 hc.2, Res.bind, Res.map, Spec.docOfElems]
-theorem export_doc_props : (ps : JSProps) → holeProps ps = false → typedProps ps = false → clashProps ps = false →
+    simp only [exportElems, export_doc v hh.1 ht.1, export_doc_elems r hh.2 ht.2, Res.bind, Res.map, Spec.docOfElems]
+theorem export_doc_props : (ps : JSProps) → holeProps ps = false → typedProps ps = false →
     exportProps ps = .ok (Spec.docOfProps ps)
-  | .nil, _, _, _ => rfl
-  | .cons k v r, hh, ht, hc => by
+  | .nil, _, _ => rfl
+  | .cons k v r, hh, ht => by
     simp only [holeProps, Bool.or_eq_false_iff] at hh
     simp only [typedProps, Bool.or_eq_false_iff] at ht
-    simp only [clashProps, Bool.or_eq_false_iff] at hc
     simp only [exportProps, Spec.docOfProps]
     by_cases hu : isUndef v = true
-    · simp only [hu, if_true]; exact export_doc_props r hh.2 ht.2 hc.2
-    · simp only [hu, Bool.not_false, Bool.true_and, Bool.false_eq_true, if_false] at ht hc ⊢
-      simp only [export_doc v hh.1 ht.1 hc.1, export_doc_props r hh.2 ht.2 hc.2, Res.bind, Res.map]
+    · simp only [hu, if_true]; exact export_doc_props r hh.2 ht.2
+    · simp only [hu, Bool.not_false, Bool.true_and, Bool.false_eq_true, if_false] at ht ⊢
+      simp only [export_doc v hh.1 ht.1, export_doc_props r hh.2 ht.2, Res.bind, Res.map]
 end
 
 /-! ## Non-vacuity and deviation witnesses (kernel-checked; each is replayed on the real code by the harness) -/
@@ -767,56 +717,53 @@ def env0 : Env := { pn := fun _ => .nan }
 -- hypotheses are satisfiable on non-trivial instances
 example : hasHole (.arr (.cons (.prim (.int .i64 1)) (.cons (.obj (.cons [97] (.prim (.str [120])) .nil)) .nil))) = false := by decide
 example : (toValue (.ptr (.ptr (.sc true (.int .u8 200))))) = .ok (.prim (.int .u8 200)) := by decide
-example : TargetIntOK (.ptr (.sc false (.int .u64 (2^53 - 1)))) := by simp [TargetIntOK, Spec.target, IntOK]
+example : TargetIntOK (.ptr (.sc false (.int .u64 (2^64 - 1)))) := by simp [TargetIntOK, Spec.target, IntOK]
 
--- Part A
+-- Part A: the remaining regions (static type changes, rejected pointers)
 example : roundtrip (.sc true (.int .int 5)) ≠ Spec.roundtrip (.sc true (.int .int 5)) := by decide              -- named_type_erased
 example : roundtrip (.ptr (.sc false (.int .int 7))) ≠ Spec.roundtrip (.ptr (.sc false (.int .int 7))) := by decide  -- pointer_deref
 example : roundtrip (.nilptr (.sc false (.num .int))) ≠ Spec.roundtrip (.nilptr (.sc false (.num .int))) := by decide
 example : roundtrip (.sc false (.f32 one)) ≠ Spec.roundtrip (.sc false (.f32 one)) := by decide                     -- float32_widened
 example : roundtrip (.ptr (.slice .iface false .nil)) = .typeError := by decide                                     -- pointer_to_container_rejected
 example : roundtrip (.ptr (.ptr (.strct 0 .nil))) = .typeError := by decide
-example : (toValue (.sc true (.f32 one))).bind (valFloat env0) = .panic ∧ Spec.toFloat env0 (.sc true (.f32 one)) = .ok one := by decide  -- float32_payload_panic
-example : (toValue (.ptr (.sc false (.f32 one)))).bind (valInteger env0) = .panic := by decide
-example : (toValue (.sc true (.f32 .nan))).bind valBool = .ok true ∧ Spec.toBoolean (.sc true (.f32 .nan)) = .ok false := by decide   -- float32_payload_nan_truthy
-example : (toValue (.sc false (.f64 .nan))).bind valMarshal = .err ∧ Spec.marshal (.sc false (.f64 .nan)) = .ok .null := by decide    -- marshal_nonfinite
-example : (toValue (.sc false (.f64 negZero))).bind valMarshal = .ok (.num negZero) ∧
-    Spec.marshal (.sc false (.f64 negZero)) = .ok (.num zero) := by decide                                          -- marshal_negzero
-
-example : (toValue (.sc false (.int .u64 (2^53 + 1)))).bind (valInteger env0) = .ok (2^53) ∧
-    Spec.toInteger env0 (.sc false (.int .u64 (2^53 + 1))) = .ok (2^53 + 1) := by decide                             -- toInteger_uint_inexact
+-- repaired regions, now plain instances of the theorems
+example : (toValue (.sc true (.f32 one))).bind (valFloat env0) = .ok one := by decide
+example : (toValue (.sc true (.f32 .nan))).bind valBool = .ok false := by decide
+example : (toValue (.sc false (.f64 .nan))).bind valMarshal = .ok .null := by decide
+example : (toValue (.sc false (.f64 negZero))).bind valMarshal = .ok (.num zero) := by decide
+example : (toValue (.sc false (.int .u64 (2^53 + 1)))).bind (valInteger env0) = .ok (2^53 + 1) := by decide
 
 -- Part B
 def wHole : JS := .arr (.cons (.prim (.int .i64 1)) (.hole (.cons (.prim (.int .i64 3)) .nil)))
 example : hasHole wHole = true ∧ (exportV wHole).map (Spec.erase env0) ≠ Spec.exportTree env0 wHole := by decide     -- export_array_hole
 def wTyped : JS := .arr (.cons (.prim (.int .i64 1)) (.cons (.prim (.int .i64 2)) .nil))
 example : typedArr wTyped = true ∧ exportV wTyped ≠ Spec.exportDoc wTyped := by decide                              -- export_array_typed
-/-- [[[1]],[["a"]]] : both elements have Kind signature (Slice, -, Slice) but types [][]int64 and [][]string -/
+/-- [[[1]],[["a"]]] : both elements have Kind signature (Slice, -, Slice) but types [][]int64 and [][]string:
+    no common type, exported as []interface{} -/
 def wClash : JS :=
   .arr (.cons (.arr (.cons (.arr (.cons (.prim (.int .i64 1)) .nil)) .nil))
        (.cons (.arr (.cons (.arr (.cons (.prim (.str [97])) .nil)) .nil)) .nil))
-example : clash wClash = true ∧ exportV wClash = .panic := by decide                                                -- export_type_clash_panic
-
-
+example : expType wClash = some (.slice .iface) := by decide
 
 /-! ## Part C: calls -/
 
-/-- Set accepts the value and stores no float32 payload -/
-def OKVal (g : GoVal) : Prop := ∃ j, toValue g = .ok j ∧ NoF32 j
+/-- Set accepts the value -/
+def OKVal (g : GoVal) : Prop := ∃ j, toValue g = .ok j
 
 theorem argViews_eq (E : Env) : (args : List GoVal) → (∀ g ∈ args, OKVal g) →
     argViews E args = Spec.argViews E args
   | [], _ => rfl
   | g :: r, h => by
-    obtain ⟨j, hj, hf⟩ := h g (by simp)
-    have hv := (view_eq E g j hj hf).1
+    obtain ⟨j, hj⟩ := h g (by simp)
+    have hv := (view_eq E g j hj).1
     simp only [argViews, Spec.argViews, hj, Res.bind, hv]
     rw [argViews_eq E r (fun g' hg' => h g' (by simp [hg']))]
 
 theorem enterThis_eq (E : Env) (g : GoVal) (h : OKVal g) :
     ((toValue g).map CallThis.val).bind (enterThis E) = Spec.enterThis E (.counterpart g) := by
-  obtain ⟨j, hj, hf⟩ := h
-  have hv := (view_eq E g j hj hf).1
+  obtain ⟨j, hj⟩ := h
+  have hf := toValue_noF32 g j hj
+  have hv := (view_eq E g j hj).1
   simp only [hj, Res.map, Res.bind, Spec.enterThis, ← hv]
   cases j with
   | prim v => cases v <;> simp [enterThis, viewJS, Res.map]
@@ -833,7 +780,7 @@ def pathThis : Path → List GoVal
 
 /-- Value.Call, Object.Call and Otto.Call (both forms) hand the callee the same `this` and the same
     arguments as the equivalent in-language call (`f.call(T, a…)`, `obj.m(a…)`, `f(a…)`), for every
-    argument list. -/
+    argument list of values that Set accepts. -/
 theorem call_equiv (E : Env) (p : Path) (args : List GoVal)
     (hthis : ∀ g ∈ pathThis p, OKVal g) (hargs : ∀ g ∈ args, OKVal g) :
     apiCall E p args = Spec.langCall E p args := by
@@ -848,9 +795,7 @@ theorem call_equiv (E : Env) (p : Path) (args : List GoVal)
   | ottoCallNil m => cases m <;> rfl
   | ottoCallThis m g => exact enterThis_eq E g (hthis g (by simp [pathThis]))
 
-example : OKVal (.ptr (.sc true (.int .int 6))) := ⟨_, rfl, trivial⟩
-
-
+example : OKVal (.ptr (.sc true (.f32 one))) := ⟨_, rfl⟩
 
 /-! ## Part B': object graphs – sharing and cycles -/
 
